@@ -158,7 +158,13 @@ func judgeLO(w gen.World, call LOCall, truth semkit.LOTruth, objs []string, err 
 	for _, o := range objs {
 		if !semkit.Contains(truth.True, o) {
 			if semkit.Contains(truth.Unknown, o) {
-				return "", fmt.Sprintf("returned %s whose permission hinges on a condition that cannot be evaluated (truth=%v)", o, truth.True)
+				sig := ""
+				if semkit.SwallowedNextToValidSiblingGrants(w, m.Request{Object: o, Relation: call.Req.Relation, User: call.Req.User, Ctx: call.Req.Ctx, Contextual: call.Req.Contextual}) {
+					// the per-candidate Check loses the unevaluable member of a subtracted set next to a
+					// valid sibling of the same read (recorded under C01, grant variant)
+					sig = semkit.SigSwallowedConditionError
+				}
+				return sig, fmt.Sprintf("returned %s whose permission hinges on a condition that cannot be evaluated (truth=%v)", o, truth.True)
 			}
 			sig := ""
 			if semkit.ExclusionGrantThroughSortedReadDedup(w, m.Request{User: call.Req.User, Ctx: call.Req.Ctx, Contextual: call.Req.Contextual}) {
